@@ -103,6 +103,21 @@ CHECKS.update({
     ),
 })
 
+CHECKS.update({
+    "C11": (
+        "model_checking",
+        "vloop-explorer",
+        "stateless explicit-state exploration of up to four outstanding request-response calls on the real connection against a "
+        "reference waiter per call that consumes device messages and timer expiries in loop processing order; leftover audit "
+        "(handler table, waiter set, timers) at every quiescent state",
+        "All interleavings of call starts, matching/non-matching/stop messages (also two per chunk), exact timeouts under a virtual clock, "
+        "cancellations and closes up to the depth/deviation bound are executed; every call's result is compared with its reference and "
+        "the registration tables must equal baseline + outstanding calls whenever the loop is quiet.",
+        BASE,
+        "DESIGN.md §3 C11, §9",
+    ),
+})
+
 NOT_APPLICABLE: dict[str, str] = {}
 
 
